@@ -25,8 +25,8 @@ Proof. exact (grouping op31 _ _ _ _ _ _ _ all_31 all_31_complete (eq_refl : ok31
 Print Assumptions C04_grouping_v31.
 
 (* FULL STATEMENT for XPath 1.0: forall t, canon10 0 t -> parse10 (lin op10 t) = Some t.
-   False of the pinned code: the 1.0 grammar makes = != and < <= > >= two left-associative levels and puts the
-   unary minus below '|', the parser uses the 2.0 rules (known findings C04-xpath1-comparison-chains, C04-xpath1-unary-union). *)
+   False of the pinned code: the 1.0 grammar makes = != and < <= > >= two left-associative levels, the parser uses
+   the 2.0 rules (known finding C04-xpath1-comparison-chains; the unary minus below '|' of the 1.0 grammar is repaired). *)
 Theorem C04_table_v10_refuted : ok10 = false.
 Proof. vm_compute. reflexivity. Qed.
 Print Assumptions C04_table_v10_refuted.
